@@ -19,7 +19,7 @@ RULE = ("variable-length encoder: 0..20000 (quick) / 0..600000 (thorough) densel
 EXHAUSTIVE = {"quick": False, "thorough": False}
 ASSUMPTIONS = ["the float logarithms in int_to_varbyte and time_signature_event are modelled by exact integer logarithms; the "
                "correspondence compares them on every boundary (128^k +-3, meters 1..128) and a dense range",
-               "NoteContainers that carry a bpm attribute (mid-bar tempo change) are not modelled or generated",
+               "NoteContainers that carry a bpm attribute (mid-bar tempo change) are not in the Lean model; they are generated and judged by the oracle only (a tempo event of 60000000 div bpm at the tick where the container starts)",
                "the bytes are read back from the file written by write_*; the file system is trusted to return what was written"]
 TRUSTED = ["harness/midi_common.py smf_parse: the independent SMF reader (about 90 lines, written from the SMF 1.0 text)"]
 
@@ -34,8 +34,8 @@ def has_model(c):
 
 # ------------------------------------------------------------------ cases
 
-def W(kind, payload, bpm=120, rep=0, tag=""):
-    return Case("midi.write", [kind, payload, bpm, rep], tag=tag or "write:" + kind, domain=True)
+def W(kind, payload, bpm=120, rep=0, tag="", model=True):
+    return Case("midi.write", [kind, payload, bpm, rep], tag=tag or "write:" + kind, domain=True, model=model)
 
 def one_note_bar(v, key="C", meter=(4, 4), note=None):
     return [key, meter[0], meter[1], [[v, [note or ["C", 4, 1, 64]]]]]
@@ -90,6 +90,14 @@ def cases(tier, rng):
         out.append(W("composition", [["r", 3, [["C", 3, 4, [[4, None], [4, A], [4, None]]]]], ["q", None, []]], rep=rep, tag="write:repeat"))
     for bpm in (4, 5, 59, 60, 61, 119, 120, 121, 240, 999, 1000, 60000000, 60000001):
         out.append(W("note", ["C", 4, 1, 64], bpm=bpm, tag="write:tempo"))
+    # containers that carry a bpm attribute: a tempo event where the container starts (not in the Lean model: oracle only)
+    for tb in (60, 90, 200, 33, 1000):
+        for pos in range(3):
+            ents = [[4, A], [8, None], [8, B], [2, A]]
+            ents[[0, 2, 3][pos]] = ents[[0, 2, 3][pos]] + [tb]
+            out.append(W("bar", ["C", 4, 4, ents], rep=pos % 2, tag="write:mid-bar-tempo", model=False))
+            out.append(W("track", ["tempo", None, [["C", 4, 4, [[1, None]]], ["G", 4, 4, ents]]], bpm=77, tag="write:mid-bar-tempo", model=False))
+    out.append(W("bar", ["C", 4, 4, [[4, A, 60], [4, None, 90], [4, [], 33], [4, B, 200]]], tag="write:mid-bar-tempo", model=False))
     out.append(W("composition", [], tag="write:empty"))
     out.append(W("composition", [["only", None, []]], tag="write:empty"))
     for lo in (["Cb", 0, 0, 64], ["Dbb", 0, 0, 64], ["C", 0, 0, 64], ["G", 9, 0, 64], ["F##", 9, 0, 64]):
@@ -163,9 +171,10 @@ def check_file(kind, payload, bpm, rep, data):
                 sounding.discard(k)
         if sounding:
             return where + "notes left hanging: %s" % sorted(sounding)
-        tempi = [int.from_bytes(e["data"], "big") for e in evs if e["kind"] == "meta" and e["type"] == 0x51]
-        if not tempi or any(t != 60000000 // bpm for t in tempi) or evs[0].get("type") != 0x51 or evs[0]["tick"] != 0:
-            return where + "tempo events %s, expected %d first at tick 0" % (tempi, 60000000 // bpm)
+        tempi = [(e["tick"], int.from_bytes(e["data"], "big")) for e in evs if e["kind"] == "meta" and e["type"] == 0x51]
+        want_tempi = [(0, 60000000 // bpm)] + want["tempos"]
+        if tempi != want_tempi or evs[0].get("type") != 0x51:
+            return where + "tempo events (tick, microseconds per quarter) %s, expected %s, the first one leading the track" % (tempi, want_tempi)
         names = [e["data"].decode("latin-1") for e in evs if e["kind"] == "meta" and e["type"] == 3]
         if names != want["names"]:
             return where + "track names %r, expected %r" % (names, want["names"])
